@@ -224,13 +224,7 @@ func step(text string, op Op, skipDeltas bool) (rec map[string]any, newText stri
 	if err != nil {
 		out["recompileErr"] = short(err.Error())
 	} else {
-		rb := Boards(g3)
-		if sameBoards(rb, after) {
-			out["recompiledSame"] = true
-		} else {
-			out["recompiledSame"] = false
-			out["recompiled"] = rb
-		}
+		out["recompiled"] = Boards(g3)
 	}
 	ast, perr := d2parser.Parse("", strings.NewReader(newText), nil)
 	if perr != nil {
